@@ -328,8 +328,69 @@ func c04Long(r *fw.Rec, f c04Field) {
 	r.Max("max_parity_"+f.ref.Name, int64(ec))
 }
 
+// c04Reuse: ONE encoder and ONE decoder instance used for a history of words with
+// varying parity counts (descending, ascending, random) - a codec may keep scratch state
+// between calls, and the statement holds for every call of every history.
+func c04Reuse(r *fw.Rec, f c04Field) {
+	rng := r.Rng
+	size := f.ref.Size
+	enc := reedsolomon.NewReedSolomonEncoder(f.lib)
+	dec := reedsolomon.NewReedSolomonDecoder(f.lib)
+	maxN := size - 1
+	if maxN > 60 {
+		maxN = 60
+	}
+	var hist []string
+	for step := 0; step < 24; step++ {
+		n := 3 + rng.Intn(maxN-2)
+		var ec int
+		switch step % 4 {
+		case 0: // large parity count first ...
+			ec = n - 1 - rng.Intn((n+1)/3)
+		case 1: // ... then a small one on the same instances
+			ec = 1 + rng.Intn(3)
+		default:
+			ec = 1 + rng.Intn(n-1)
+		}
+		if ec >= n {
+			ec = n - 1
+		}
+		if ec < 1 {
+			ec = 1
+		}
+		data := toInts(n-ec, rng, size, rng.Intn(4))
+		hist = append(hist, fmt.Sprintf("(n=%d,r=%d)", n, ec))
+		word, ok := c04Encode(r, f, enc, data, ec)
+		if !ok {
+			return
+		}
+		t := ec / 2
+		e := t
+		if step%3 == 2 {
+			e = rng.Intn(t + 1)
+		}
+		pos := rng.Perm(n)[:e]
+		mags := make([]int, e)
+		for i := range mags {
+			mags[i] = 1 + rng.Intn(size-1)
+		}
+		if !c04Decode(r, f, dec, word, ec, pos, mags) {
+			r.Tally("reuse_history_failed_at_step")
+			return
+		}
+		// re-encoding the (restored) code word in place must reproduce the same parity
+		again := append([]int{}, word...)
+		if err := enc.Encode(again, ec); err != nil || !intsEq(again, word) {
+			r.Violation("model-mismatch", "rs:encode-not-idempotent-on-codeword", fmt.Sprintf("%s: Encode of a valid code word in place (n=%d, r=%d) changed it or failed (%v) after history %v", f.ref.Name, n, ec, err, hist), map[string]interface{}{"field": f.ref.Name, "n": n, "r": ec, "word": clip(word)})
+			return
+		}
+	}
+	r.Tally("rs_reuse_histories")
+	r.Nontrivial("reuse/" + f.ref.Name + "/" + fmt.Sprint(hist))
+}
+
 func c04(c *fw.Ctx) {
-	c.Rule("all six fields: every product a*b (exhaustive, up to 4096^2), every inverse, log and exp compared with shift-and-xor multiplication modulo the primitive polynomial; RS encode compared with polynomial long division and direct syndrome evaluation; RS decode must restore the exact word: short codes (n <= 20) with every single and double error position, long codes with random (k, r) up to n = |F|-1 and 0, 1, t-1, t errors at random, extreme and burst positions; distinct = distinct field elements + distinct (field, k, r, data)")
+	c.Rule("all six fields: every product a*b (exhaustive, up to 4096^2), every inverse, log and exp compared with shift-and-xor multiplication modulo the primitive polynomial; RS encode compared with polynomial long division and direct syndrome evaluation; RS decode must restore the exact word: short codes (n <= 20) with every single and double error position, long codes with random (k, r) up to n = |F|-1 and 0, 1, t-1, t errors at random, extreme and burst positions; histories of 24 words with varying parity counts on ONE encoder and ONE decoder instance (large then small r, re-encoding in place); distinct = distinct field elements + distinct (field, k, r, data)")
 	c.Assume("more than floor(r/2) errors are outside the statement and never generated")
 	fields := c04Fields()
 	for _, f := range fields {
@@ -376,6 +437,14 @@ func c04(c *fw.Ctx) {
 			c.Run(fmt.Sprintf("long/%s/%d", f.ref.Name, i), func(r *fw.Rec) { c04Long(r, f) })
 		}
 	}
+	nreuse := c.Pick(60, 1500)
+	for _, f := range fields {
+		f := f
+		for i := 0; i < nreuse; i++ {
+			c.Run(fmt.Sprintf("reuse/%s/%d", f.ref.Name, i), func(r *fw.Rec) { c04Reuse(r, f) })
+		}
+	}
+	c.Floor("rs_reuse_histories", int64(6*nreuse*9/10))
 	c.Floor("rs_words_encoded", 1000)
 	c.Floor("rs_decoded_at_capacity", 500)
 	c.Floor("rs_decoded_clean", 500)
